@@ -78,6 +78,7 @@ structure Inst where
   stopCtx : StopCtx := .none
   probeStopped : Bool := false       -- `Prober.stopped` of the readiness prober
   launches : Nat := 0
+  launchedAt : Nat := 0              -- logical time of the last launch (orders live commands)
 deriving DecidableEq, Repr, Inhabited
 
 /-- Continuation after `ShutDownProject` returns. -/
@@ -142,7 +143,8 @@ inductive Kind
   | waiter (i : IId)
   | stopper (i : IId)
   | depwaiter (of : IId) (i : IId)      -- waits for `i` on behalf of the stopper of `of`
-  | probe (id : Nat) (i : IId)
+  | probe (id : Nat) (n : Name)         -- fatal readiness callback for the running instance of n
+  | pstart (i : IId)                    -- goroutine of `Prober.Start` (re-arms the readiness prober)
 deriving DecidableEq, Repr, Inhabited
 
 structure Thr where
@@ -158,6 +160,7 @@ inductive Obs
   | started (n : Name)
   | done (n : Name)
   | logready (n : Name)
+  | deptry (me k : Name)
   | dep (me k : Name) (found : Bool)
   | launch (n : Name)
   | launchfail (n : Name)
@@ -189,6 +192,7 @@ structure Sys where
   depWg : List Nat := []                 -- by name (stopper's local wait group)
   appCancelled : Bool := false
   crashed : Bool := false
+  launchClock : Nat := 0
   obs : List Obs := []                   -- observations of the current step (cleared per step)
 deriving DecidableEq, Repr, Inhabited
 
@@ -325,6 +329,7 @@ def depStep (s : Sys) (t : Tid) (i : IId) (h : Hints) (rest : List (Name × Cond
   match pickDep h rest with
   | none => afterDeps s t
   | some ((k, c), rest') =>
+    let s := s.emit (.deptry (s.nameOf i) k)
     match s.doneM.getD k none with
     | some d => (s.emit (.dep (s.nameOf i) k true)).setPc t (.depLookup d c rest')
     | none => if lockFree s t then lookupRunning s t i k c rest' else s.setPc t (.lockDep k c rest')
@@ -345,7 +350,10 @@ def doLaunch (s : Sys) (t : Tid) (i : IId) : Sys :=
     s.setPc t (.procRan 1)
   else
     let s := s.emit (.launch (s.nameOf i))
-    let s := s.setInst i fun x => { x with cmd := .alive, launches := x.launches + 1, probeStopped := false }
+    let s := { s with launchClock := s.launchClock + 1 }
+    let s := s.setInst i fun x => { x with cmd := .alive, launches := x.launches + 1, launchedAt := s.launchClock }
+    -- startProbes(): the prober is re-armed by its own goroutine
+    let s := if (s.icfg i).hasReadyProbe then s.spawn (.pstart i) else s
     s.setPc t .cmdWait
 
 /-- `ShutDownProject` body once the lock is held: order, prepare -/
@@ -565,11 +573,15 @@ def stepThread (s : Sys) (t : Tid) (h : Hints) : Sys :=
     else apiRet s t "no-such"
   | .api _ _, .runWg => (s.emit (.runReturned s.exitCode)).setPc t .finished
   /- ---------- probe callback thread (fatal readiness result) ---------- -/
-  | .probe _ i, .begin =>
-    if (s.inst i).probeStopped then s.setPc t .finished
-    else
-      let s := s.setPs (s.nameOf i) fun p => { p with health := .notReady }
-      gotoStop s t i false .probe
+  | .probe _ n, .begin =>
+    match s.running.getD n none with
+    | none => s.setPc t .finished
+    | some i =>
+      if (s.inst i).probeStopped then s.setPc t .finished
+      else
+        let s := s.setPs n fun p => { p with health := .notReady }
+        gotoStop s t i false .probe
+  | .pstart i, .begin => (s.setInst i fun x => { x with probeStopped := false }).setPc t .finished
   | _, _ => s
 
 /-- Is the label a pure yield point (passed through in coarse granularity)? -/
@@ -631,9 +643,12 @@ inductive Choice
   | call (id : Nat) (op : ApiOp)           -- an API request arrives (new thread)
 deriving DecidableEq, Repr, Inhabited
 
-/-- the instance of name `n` whose command is alive (the one the fake commander drives) -/
+/-- the instance of name `n` whose command is alive; with several (overlap), the one launched first -/
 def aliveInst (s : Sys) (n : Name) : Option IId :=
-  (List.range s.insts.length).find? fun i => (s.inst i).name = n ∧ (s.inst i).cmd = .alive
+  let alive := (List.range s.insts.length).filter fun i => (s.inst i).name = n ∧ (s.inst i).cmd = .alive
+  alive.foldl (fun best i => match best with
+    | none => some i
+    | some b => if (s.inst i).launchedAt < (s.inst b).launchedAt then some i else some b) none
 
 def fuelPerStep : Nat := 200
 
@@ -661,7 +676,7 @@ def step (s : Sys) (c : Choice) (h : Hints) : Sys :=
       else s.setPs n fun p => { p with health := .notReady }
     | none => s
   | .probeFatal id n => match s.running.getD n none with
-    | some i => s.spawn (.probe id i)
+    | some _ => s.spawn (.probe id n)
     | none => s
   | .killTimeout n =>
     match (List.range s.insts.length).find? fun i => (s.inst i).name = n ∧ (s.inst i).stopCtx = .armed with
